@@ -347,7 +347,7 @@ def run_case(case):
         vt = cmp.first_divergence(rec, "efc.type", np.asarray(r1["type"]), np.asarray(r2["type"]), sig_prefix="dense_vs_sparse:", ctx=ctx)
         if vt == "viol":
           continue
-        for f in ("J", "pos", "D", "aref", "vel", "frictionloss"):
+        for f in ("J", "pos", "D", "aref", "vel", "frictionloss") if r1["nefc"] else ():
           # row by row, relative to the row's own magnitude (a D=1e15 row must not hide a 2x error elsewhere)
           a = np.asarray(r1[f], dtype=np.float64).reshape(r1["nefc"], -1)
           b = np.asarray(r2[f], dtype=np.float64).reshape(r2["nefc"], -1)
